@@ -764,6 +764,54 @@ def main(argv):
         return 2
 
 
+
+# ---- a program run as a script file (`ka --script f`) means what the same text means to execute(): layout (one token per
+# line, so that every kind of token starts a line somewhere) changes nothing
+SCRIPT_PROGRAMS = ["#2020-03-01# - #2020-02-01# to days", "x = 7; #2021-01-01# - #2020-01-01# to days", "size({1, 2, #2020-01-01# < #2020-01-02#})",
+                   "x = 2; y = x^10; y - 1", "{a * 2 : a in 1..4, a % 2 == 0}", "(3 m + 20 cm) to mm", "-5 + 3", "1 - -2", "a = \"x y\"; a",
+                   "7 % 4", "2 km | h to m | s", "1/0", "x = 3; x!; x +", "[1, 2] * 3", "5 > 3 >= 1", "max(1, 2, 3)"]
+
+
+def script_route(ctx, programs=None, prefix="script-layout"):
+    R = ctx.real
+    home = scratch_home()
+    sdir = os.path.join(home, "layouts")
+    os.makedirs(sdir, exist_ok=True)
+    env = dict(os.environ, HOME=home, PYTHONPATH=os.path.join(REPO, "src"), MPLBACKEND="Agg")
+    jobs = []
+    for i, text in enumerate(programs or SCRIPT_PROGRAMS):
+        try:
+            toks = R.tokens.tokenise(text)
+            lex = [text[t.begin_index_incl:t.end_index_excl] for t in toks]
+        except Exception:  # noqa: the token class does not look as expected, or the text does not lex: only the text itself
+            lex = None
+        layouts = [("as written", text)]
+        if lex and "".join(lex).replace(" ", "") == text.replace(" ", ""):
+            layouts += [("one token per line", "\n".join(lex)), ("one token per line, indented", "\n  ".join(lex) + "\n")]
+        base = R.execute(text, timeout=10)
+        for j, (what, lay) in enumerate(layouts):
+            jobs.append((text, what, lay, base, os.path.join(sdir, "p%d_%d.ka" % (i, j))))
+
+    def run(job):
+        text, what, lay, base, path = job
+        with open(path, "w", encoding="utf-8", newline="") as f:
+            f.write(lay)
+        try:
+            p = subprocess.run([sys.executable, "-m", "ka.cli", "--script", path], env=env, stdout=subprocess.PIPE, stderr=subprocess.PIPE, text=True, timeout=60)
+            return job, p.returncode, p.stdout, p.stderr
+        except subprocess.TimeoutExpired:
+            return job, "timeout", "", ""
+    from concurrent.futures import ThreadPoolExecutor
+    with ThreadPoolExecutor(8) as ex:
+        for (text, what, lay, base, path), rc, out, err in ex.map(run, jobs):
+            ctx.count("%s:%s:%s" % (prefix, what, text), bucket="script route/" + what)
+            if base["escaped"] or base["status"] not in (0, 1):
+                continue
+            if rc != base["status"] or out != base["out"] or "Traceback" in err:
+                ctx.violation("%s:%s" % (prefix, lay), lay, "what execute(%r) gives: status %s, prints %r" % (text, base["status"], base["out"][:120]),
+                              "exit %r, prints %r %s" % (rc, out[:120], err.strip()[-160:]),
+                              "HOME=<empty> python -m ka.cli --script <file holding the input, %s>" % what)
+
 # ---- session bindings of a real EvalEnvironment, independent of how the class stores them ----------------------------
 ENV_NAME_POOL = set("a b c d e f g h i j k l m n o p q r s t u v w x y z xs ys iv jv pi true false".split())
 
